@@ -37,8 +37,65 @@ Proof. apply nofuel_log. reflexivity. Qed.
 #[export] Hint Extern 1 (nofuel (emit _ _)) => (apply nofuel_emit; [reflexivity|]) : nf.
 #[export] Hint Extern 1 (nofuel (emit_bad _ _ _)) => (apply nofuel_emit_bad; [discriminate|]) : nf.
 #[export] Hint Resolve nofuel_upd nofuel_uhdr nofuel_uside : nf.
-(** record setters of fields other than [log] *)
-#[export] Hint Extern 2 (nofuel (set _ _ ?X)) => (apply (nofuel_log X); [reflexivity|]) : nf.
+(** record setters of fields other than [log] (one lemma per field: a generic
+    [reflexivity] on [log (set f g X) = log X] can make the unifier normalise [X]) *)
+Lemma nofuel_set_heap g m : nofuel m -> nofuel (set heap g m).
+Proof. exact (fun H => H). Qed.
+Lemma nofuel_set_pc g m : nofuel m -> nofuel (set pc g m).
+Proof. exact (fun H => H). Qed.
+Lemma nofuel_set_pc_size g m : nofuel m -> nofuel (set pc_size g m).
+Proof. exact (fun H => H). Qed.
+Lemma nofuel_set_pc_alive g m : nofuel m -> nofuel (set pc_alive g m).
+Proof. exact (fun H => H). Qed.
+Lemma nofuel_set_st_collecting g m : nofuel m -> nofuel (set st_collecting g m).
+Proof. exact (fun H => H). Qed.
+Lemma nofuel_set_st_finalizing g m : nofuel m -> nofuel (set st_finalizing g m).
+Proof. exact (fun H => H). Qed.
+Lemma nofuel_set_st_dropping g m : nofuel m -> nofuel (set st_dropping g m).
+Proof. exact (fun H => H). Qed.
+Lemma nofuel_set_st_alloc g m : nofuel m -> nofuel (set st_alloc g m).
+Proof. exact (fun H => H). Qed.
+Lemma nofuel_set_st_exec g m : nofuel m -> nofuel (set st_exec g m).
+Proof. exact (fun H => H). Qed.
+Lemma nofuel_set_cf_thr g m : nofuel m -> nofuel (set cf_thr g m).
+Proof. exact (fun H => H). Qed.
+Lemma nofuel_set_cf_pnum g m : nofuel m -> nofuel (set cf_pnum g m).
+Proof. exact (fun H => H). Qed.
+Lemma nofuel_set_cf_pexp g m : nofuel m -> nofuel (set cf_pexp g m).
+Proof. exact (fun H => H). Qed.
+Lemma nofuel_set_cf_buf g m : nofuel m -> nofuel (set cf_buf g m).
+Proof. exact (fun H => H). Qed.
+Lemma nofuel_set_cf_auto g m : nofuel m -> nofuel (set cf_auto g m).
+Proof. exact (fun H => H). Qed.
+Lemma nofuel_set_slots g m : nofuel m -> nofuel (set slots g m).
+Proof. exact (fun H => H). Qed.
+Lemma nofuel_set_wslots g m : nofuel m -> nofuel (set wslots g m).
+Proof. exact (fun H => H). Qed.
+Lemma nofuel_set_cslots g m : nofuel m -> nofuel (set cslots g m).
+Proof. exact (fun H => H). Qed.
+Lemma nofuel_set_values g m : nofuel m -> nofuel (set values g m).
+Proof. exact (fun H => H). Qed.
+Lemma nofuel_set_bag g m : nofuel m -> nofuel (set bag g m).
+Proof. exact (fun H => H). Qed.
+Lemma nofuel_set_wparam g m : nofuel m -> nofuel (set wparam g m).
+Proof. exact (fun H => H). Qed.
+Lemma nofuel_set_fuse_trace g m : nofuel m -> nofuel (set fuse_trace g m).
+Proof. exact (fun H => H). Qed.
+Lemma nofuel_set_fuse_fin g m : nofuel m -> nofuel (set fuse_fin g m).
+Proof. exact (fun H => H). Qed.
+Lemma nofuel_set_fuse_drop g m : nofuel m -> nofuel (set fuse_drop g m).
+Proof. exact (fun H => H). Qed.
+Lemma nofuel_set_fuse_action g m : nofuel m -> nofuel (set fuse_action g m).
+Proof. exact (fun H => H). Qed.
+Lemma nofuel_set_fuse_closure g m : nofuel m -> nofuel (set fuse_closure g m).
+Proof. exact (fun H => H). Qed.
+Lemma nofuel_set_panicking g m : nofuel m -> nofuel (set panicking g m).
+Proof. exact (fun H => H). Qed.
+Lemma nofuel_set_next_aid g m : nofuel m -> nofuel (set next_aid g m).
+Proof. exact (fun H => H). Qed.
+Lemma nofuel_set_dead g m : nofuel m -> nofuel (set dead g m).
+Proof. exact (fun H => H). Qed.
+#[export] Hint Resolve nofuel_set_heap nofuel_set_pc nofuel_set_pc_size nofuel_set_pc_alive nofuel_set_st_collecting nofuel_set_st_finalizing nofuel_set_st_dropping nofuel_set_st_alloc nofuel_set_st_exec nofuel_set_cf_thr nofuel_set_cf_pnum nofuel_set_cf_pexp nofuel_set_cf_buf nofuel_set_cf_auto nofuel_set_slots nofuel_set_wslots nofuel_set_cslots nofuel_set_values nofuel_set_bag nofuel_set_wparam nofuel_set_fuse_trace nofuel_set_fuse_fin nofuel_set_fuse_drop nofuel_set_fuse_action nofuel_set_fuse_closure nofuel_set_panicking nofuel_set_next_aid nofuel_set_dead : nf.
 (** position hypotheses of the form [r <> OFuel -> nofuel m] *)
 Lemma raise_nf m : raise m <> OFuel.
 Proof. unfold raise. destruct (panicking m); discriminate. Qed.
@@ -300,3 +357,182 @@ Ltac nleaf Hrec :=
 
 Ltac nrun Hrec := repeat (progress (cbv beta iota) || nstep Hrec); try (nleaf Hrec).
 
+Section Steps.
+  Context (K : conf) (P : prog).
+  Context (rec : call -> machine -> machine * outcome).
+  Hypothesis Hrec : nfspec rec.
+
+  Notation NF X := (X.2 <> OFuel -> nofuel X.1).
+
+  Lemma nf_step_script self cs m : nofuel m -> NF (step_script rec self cs m).
+  Proof. intros Hm. unfold step_script. nrun Hrec. Qed.
+  Lemma nf_step_store r v m : nofuel m -> NF (step_store rec r v m).
+  Proof. intros Hm. unfold step_store. nrun Hrec. Qed.
+  Lemma nf_step_drop_cc o m : nofuel m -> NF (step_drop_cc K P rec o m).
+  Proof. intros Hm. unfold step_drop_cc. nrun Hrec. Qed.
+  Lemma nf_step_drop_value o m : nofuel m -> NF (step_drop_value K P rec o m).
+  Proof. intros Hm. unfold step_drop_value. nrun Hrec. Qed.
+  Lemma nf_step_drop_fields o j m : nofuel m -> NF (step_drop_fields rec o j m).
+  Proof. intros Hm. unfold step_drop_fields. nrun Hrec. Qed.
+  Lemma nf_step_drop_map_slots o j m : nofuel m -> NF (step_drop_map_slots rec o j m).
+  Proof. intros Hm. unfold step_drop_map_slots. nrun Hrec. Qed.
+  Lemma nf_step_clean_run mo aid sc m : nofuel m -> NF (step_clean_run K P rec mo aid sc m).
+  Proof. intros Hm. unfold step_clean_run. nrun Hrec. Qed.
+  Lemma nf_step_trigger m : nofuel m -> NF (step_trigger K rec m).
+  Proof. intros Hm. unfold step_trigger. nrun Hrec. Qed.
+  Lemma nf_step_collect_cycles m : nofuel m -> NF (step_collect_cycles K rec m).
+  Proof. intros Hm. unfold step_collect_cycles. nrun Hrec. Qed.
+  Lemma nf_step_collect m : nofuel m -> NF (step_collect K rec m).
+  Proof. intros Hm. unfold step_collect. nrun Hrec. Qed.
+  Lemma nf_step_collect_loop k m : nofuel m -> NF (step_collect_loop rec k m).
+  Proof. intros Hm. unfold step_collect_loop. nrun Hrec. Qed.
+  Lemma nf_step_finalize_list L rest any old_f m : nofuel m -> NF (step_finalize_list K P rec L rest any old_f m).
+  Proof. intros Hm. unfold step_finalize_list. nrun Hrec. Qed.
+  Lemma nf_step_drop_list L rest old_d m : nofuel m -> NF (step_drop_list K rec L rest old_d m).
+  Proof. intros Hm. unfold step_drop_list. nrun Hrec. Qed.
+  Lemma nf_step_unbag k m : nofuel m -> NF (step_unbag rec k m).
+  Proof. intros Hm. unfold step_unbag. nrun Hrec. Qed.
+  Lemma nf_cmd_new self dst cls m : nofuel m -> NF (cmd_new K P rec self dst cls m).
+  Proof. intros Hm. unfold cmd_new. nrun Hrec. Qed.
+  Lemma nf_cmd_clone self src dst m : nofuel m -> NF (cmd_clone rec self src dst m).
+  Proof. intros Hm. unfold cmd_clone. nrun Hrec. Qed.
+  Lemma nf_cmd_drop self l m : nofuel m -> NF (cmd_drop rec self l m).
+  Proof. intros Hm. unfold cmd_drop. nrun Hrec. Qed.
+  Lemma nf_cmd_move self src dst m : nofuel m -> NF (cmd_move rec self src dst m).
+  Proof. intros Hm. unfold cmd_move. nrun Hrec. Qed.
+  Lemma nf_cmd_mark_alive self l m : nofuel m -> NF (cmd_mark_alive self l m).
+  Proof. intros Hm. unfold cmd_mark_alive. nrun Hrec. Qed.
+  Lemma nf_cmd_collect self m : nofuel m -> NF (cmd_collect rec self m).
+  Proof. intros Hm. unfold cmd_collect. nrun Hrec. Qed.
+  Lemma nf_cmd_downgrade self l w m : nofuel m -> NF (cmd_downgrade K self l w m).
+  Proof. intros Hm. unfold cmd_downgrade. nrun Hrec. Qed.
+  Lemma nf_cmd_upgrade self w dst m : nofuel m -> NF (cmd_upgrade K rec self w dst m).
+  Proof. intros Hm. unfold cmd_upgrade. nrun Hrec. Qed.
+  Lemma nf_cmd_w_new self w m : nofuel m -> NF (cmd_w_new K self w m).
+  Proof. intros Hm. unfold cmd_w_new. nrun Hrec. Qed.
+  Lemma nf_cmd_w_clone self src dst m : nofuel m -> NF (cmd_w_clone K self src dst m).
+  Proof. intros Hm. unfold cmd_w_clone. nrun Hrec. Qed.
+  Lemma nf_cmd_w_drop self w m : nofuel m -> NF (cmd_w_drop K self w m).
+  Proof. intros Hm. unfold cmd_w_drop. nrun Hrec. Qed.
+  Lemma nf_cmd_try_unwrap self l v m : nofuel m -> NF (cmd_try_unwrap K self l v m).
+  Proof. intros Hm. unfold cmd_try_unwrap. nrun Hrec. Qed.
+  Lemma nf_cmd_drop_value self v m : nofuel m -> NF (cmd_drop_value rec self v m).
+  Proof. intros Hm. unfold cmd_drop_value. nrun Hrec. Qed.
+  Lemma nf_cmd_fin_again self l m : nofuel m -> NF (cmd_fin_again K self l m).
+  Proof. intros Hm. unfold cmd_fin_again. nrun Hrec. Qed.
+  Lemma nf_cmd_new_cyclic self dst cls sc sw m : nofuel m -> NF (cmd_new_cyclic K P rec self dst cls sc sw m).
+  Proof. intros Hm. unfold cmd_new_cyclic. nrun Hrec. Qed.
+  Lemma nf_cmd_register self nd sc c m : nofuel m -> NF (cmd_register K P rec self nd sc c m).
+  Proof. intros Hm. unfold cmd_register. nrun Hrec. Qed.
+  Lemma nf_cmd_clean self c m : nofuel m -> NF (cmd_clean K rec self c m).
+  Proof. intros Hm. unfold cmd_clean. nrun Hrec. Qed.
+  Lemma nf_cmd_c_drop self c m : nofuel m -> NF (cmd_c_drop K self c m).
+  Proof. intros Hm. unfold cmd_c_drop. nrun Hrec. Qed.
+  Lemma nf_cmd_unbag self k m : nofuel m -> NF (cmd_unbag rec self k m).
+  Proof. intros Hm. unfold cmd_unbag. nrun Hrec. Qed.
+  Lemma nf_cmd_borrow self nd m : nofuel m -> NF (cmd_borrow self nd m).
+  Proof. intros Hm. unfold cmd_borrow. nrun Hrec. Qed.
+  Lemma nf_cmd_unborrow self nd m : nofuel m -> NF (cmd_unborrow self nd m).
+  Proof. intros Hm. unfold cmd_unborrow. nrun Hrec. Qed.
+  Lemma nf_cmd_cfg_auto self b m : nofuel m -> NF (cmd_cfg_auto K self b m).
+  Proof. intros Hm. unfold cmd_cfg_auto. nrun Hrec. Qed.
+  Lemma nf_cmd_cfg_percent self num e m : nofuel m -> NF (cmd_cfg_percent K self num e m).
+  Proof. intros Hm. unfold cmd_cfg_percent. nrun Hrec. Qed.
+  Lemma nf_cmd_cfg_buffered self b m : nofuel m -> NF (cmd_cfg_buffered K self b m).
+  Proof. intros Hm. unfold cmd_cfg_buffered. nrun Hrec. Qed.
+  Lemma nf_cmd_arm self k v m : nofuel m -> NF (cmd_arm self k v m).
+  Proof. intros Hm. unfold cmd_arm. nrun Hrec. Qed.
+  Lemma nf_cmd_panic self m : nofuel m -> NF (cmd_panic self m).
+  Proof. intros Hm. unfold cmd_panic. nrun Hrec. Qed.
+  Lemma nf_cmd_obs self l m : nofuel m -> NF (cmd_obs self l m).
+  Proof. intros Hm. unfold cmd_obs. nrun Hrec. Qed.
+  Lemma nf_cmd_w_obs self w m : nofuel m -> NF (cmd_w_obs K self w m).
+  Proof. intros Hm. unfold cmd_w_obs. nrun Hrec. Qed.
+  Lemma nf_cmd_s_obs self m : nofuel m -> NF (cmd_s_obs K self m).
+  Proof. intros Hm. unfold cmd_s_obs. nrun Hrec. Qed.
+
+  Lemma nf_step_collect_once m : nofuel m -> NF (step_collect_once K P rec m).
+  Proof.
+    intros Hm. unfold step_collect_once.
+    nstep Hrec. destruct p as [L| |]; [|nleaf Hrec|cbn [fst snd]; intros Hne; exfalso; apply Hne; reflexivity].
+    nrun Hrec.
+  Qed.
+
+  Lemma nf_cmd_bag self l k m : nofuel m -> NF (cmd_bag self l k m).
+  Proof.
+    intros Hm. unfold cmd_bag. nstep Hrec. nstep Hrec; [|nleaf Hrec].
+    generalize (N.to_nat k). intros n. revert HN. generalize m0. clear.
+    induction n as [|n IH]; intros mi HN.
+    - nleaf tt.
+    - cbn. destruct (inc_rc (hdr_of mi i)) as [h|] eqn:E; [|nleaf tt].
+      apply IH. nf_solve.
+  Qed.
+
+  Lemma nf_step_cmd self c m : nofuel m -> NF (step_cmd K P rec self c m).
+  Proof.
+    intros Hm. destruct c; cbn [step_cmd].
+    - apply nf_cmd_new, Hm.
+    - apply nf_cmd_clone, Hm.
+    - apply nf_cmd_drop, Hm.
+    - apply nf_cmd_move, Hm.
+    - apply nf_cmd_mark_alive, Hm.
+    - apply nf_cmd_collect, Hm.
+    - apply nf_cmd_downgrade, Hm.
+    - apply nf_cmd_upgrade, Hm.
+    - apply nf_cmd_w_new, Hm.
+    - apply nf_cmd_w_clone, Hm.
+    - apply nf_cmd_w_drop, Hm.
+    - apply nf_cmd_try_unwrap, Hm.
+    - apply nf_cmd_drop_value, Hm.
+    - apply nf_cmd_fin_again, Hm.
+    - apply nf_cmd_new_cyclic, Hm.
+    - apply nf_cmd_register, Hm.
+    - apply nf_cmd_clean, Hm.
+    - apply nf_cmd_c_drop, Hm.
+    - apply nf_cmd_bag, Hm.
+    - apply nf_cmd_unbag, Hm.
+    - apply nf_cmd_borrow, Hm.
+    - apply nf_cmd_unborrow, Hm.
+    - apply nf_cmd_cfg_auto, Hm.
+    - apply nf_cmd_cfg_percent, Hm.
+    - apply nf_cmd_cfg_buffered, Hm.
+    - apply nf_cmd_arm, Hm.
+    - apply nf_cmd_panic, Hm.
+    - apply nf_cmd_obs, Hm.
+    - apply nf_cmd_w_obs, Hm.
+    - apply nf_cmd_s_obs, Hm.
+  Qed.
+
+  Lemma nf_step c m : nofuel m -> NF (step K P rec c m).
+  Proof.
+    intros Hm. destruct c; cbn [step].
+    - apply nf_step_cmd, Hm.
+    - apply nf_step_script, Hm.
+    - apply nf_step_store, Hm.
+    - apply nf_step_drop_cc, Hm.
+    - apply nf_step_drop_value, Hm.
+    - apply nf_step_drop_fields, Hm.
+    - apply nf_step_drop_map_slots, Hm.
+    - apply nf_step_trigger, Hm.
+    - apply nf_step_collect_cycles, Hm.
+    - apply nf_step_collect, Hm.
+    - apply nf_step_collect_loop, Hm.
+    - apply nf_step_collect_once, Hm.
+    - apply nf_step_finalize_list, Hm.
+    - apply nf_step_drop_list, Hm.
+    - apply nf_step_unbag, Hm.
+    - apply nf_step_clean_run, Hm.
+  Qed.
+End Steps.
+
+Theorem step_nofuel K P rec : nfspec rec -> nfspec (step K P rec).
+Proof. intros Hrec c m Hm. apply nf_step; assumption. Qed.
+
+Theorem run_nofuel K P n : nfspec (run K P n).
+Proof.
+  induction n as [|n IH].
+  - intros c m _ H. exfalso. apply H. reflexivity.
+  - intros c m. rewrite run_S. apply step_nofuel, IH.
+Qed.
+
+Print Assumptions run_nofuel.
